@@ -1732,16 +1732,20 @@ impl UnifiedCommandExecutor {
             BitCommand::BitCount { key, start, end } => {
                 match self.storage.get_string(db, &key)? {
                     Some(value) => {
-                        let (start_byte, end_byte) = if let (Some(s), Some(e)) = (start, end) {
-                            let len = value.len() as isize;
-                            let start_pos = if s < 0 { (len + s).max(0) } else { s.min(len - 1) } as usize;
-                            let end_pos = if e < 0 { (len + e).max(0) } else { e.min(len - 1) } as usize;
-                            (start_pos, end_pos)
-                        } else {
-                            (0, value.len().saturating_sub(1))
+                        // Without a range the whole string is counted (0..-1)
+                        let (s, e) = match (start, end) {
+                            (Some(s), Some(e)) => (s, e),
+                            _ => (0, -1),
                         };
+                        let len = value.len() as isize;
+                        let start_pos = if s < 0 { len.saturating_add(s).max(0) } else { s };
+                        let end_pos = if e < 0 { len.saturating_add(e).max(0) } else { e.min(len - 1) };
+                        // An empty string or a range that ends before it starts counts nothing
+                        if start_pos > end_pos || start_pos >= len {
+                            return Ok(RespFrame::Integer(0));
+                        }
                         
-                        let slice = &value[start_byte..=end_byte.min(value.len().saturating_sub(1))];
+                        let slice = &value[start_pos as usize..=end_pos as usize];
                         let bit_count = slice.iter().map(|&byte| byte.count_ones() as i64).sum::<i64>();
                         Ok(RespFrame::Integer(bit_count))
                     }
